@@ -1535,6 +1535,19 @@ def rule_counter(ck, W, pcs):
                 if not g:
                     # `if(counter != limit) throw`: counter == limit at the exit, in particular not counter < limit
                     g = [("<", C, (f_[2] if f_[1] == C else f_[1]), False, f_[4], f_[5]) for f_ in fs if f_[0] == "==" and f_[3] and C in (f_[1], f_[2])]
+                if not g and limits:
+                    # a shortcut exit (`if(limit == 0) return;`): no assignment of the bounded model satisfies the facts of this exit
+                    # together with counter < limit
+                    for L_ in sorted(limits):
+                        if REG.get(C) is None or REG.get(L_) is None:
+                            continue
+                        try:
+                            wit, nok = small_model(set(fs), {"k": "Bin", "op": "-", "lhs": REG[C], "rhs": REG[L_]}, 1, lo_only=True)
+                        except Unknown:
+                            continue
+                        if wit is None and nok > 0 and any(L_ in (f_[1], f_[2]) or C in (f_[1], f_[2]) for f_ in fs):
+                            g = [("<", C, L_, False, frozenset(), frozenset())]
+                            break
                 if not g:
                     sus = suspects(W, ec, None, {"@" + C}, anywhere=True)
                     if sus:
@@ -3036,9 +3049,33 @@ class Emitter:
             for c in children(n):
                 self._stmt(f, c, subst, cond, depth, out, bufs)
 
-    def _operand(self, f, o, subst, cond, out, bufs=None):
+    def _never_reassigned(self, f, name):
+        return not any((x.get("k") == "Assign" and root_var(x["lhs"]) == name) or
+                       (x.get("k") == "OpCall" and x.get("op") in ("=", "+=") and x.get("a") and root_var(x["a"][0]) == name) or
+                       (x.get("k") == "MCall" and root_var(x.get("obj")) == name and not x.get("cconst") and not ACCESSOR_RE.match(x.get("n") or ""))
+                       for x in f.nodes())
+
+    def _operand(self, f, o, subst, cond, out, bufs=None, depth=0):
         v = str_value(o)
         s = strip(o)
+        # a value assembled by string concatenation (`sindent + "<Mapping dim=\"" + stringify(d) + "\">"`), directly or through a
+        # local that is never re-assigned: the pieces are emitted in order
+        if v is None and s is not None and depth < 4:
+            cat = s
+            if s.get("k") == "Ref" and s.get("dk") == "local" and self._never_reassigned(f, s["n"]):
+                cat = local_init(f, s["n"])
+                while cat is not None and cat.get("k") in ("Construct", "TempObj") and len(cat.get("a", [])) == 1 and str_value(cat) is None:
+                    cat = strip(cat["a"][0])
+            if cat is not None and cat.get("k") in ("OpCall", "Bin") and cat.get("op") == "+":
+                ops = flatten_plus(cat)
+                if len(ops) >= 2 and any(str_value(x) is not None for x in ops):
+                    for x in ops:
+                        self._operand(f, x, subst, cond, out, bufs, depth + 1)
+                    return
+        if v is None and s is not None and s.get("k") == "Call" and s.get("callee") == "FEAT::stringify" and len(s.get("a", [])) == 1:
+            o = s["a"][0]          # stringify(x) puts the text of x
+            v = str_value(o)
+            s = strip(o)
         if v is None and s.get("k") == "Ref" and s.get("dk") == "param" and s["n"] in subst:
             v = subst[s["n"]]
         blank_param = False
@@ -3079,6 +3116,39 @@ class Tag:
         self.where = where
         self.vals = []        # value operands emitted inside the open markup (attribute values), in order
         self.closed_seen = False
+
+
+def merged_children(tag):
+    """children of a tag with the siblings of one name merged: the attribute vocabulary of <X> is that of ALL the <X> markups the
+    writer emits at this place (an attribute some of them lack is emitted 'only conditionally')"""
+    groups, order = {}, []
+    for ch in tag.children:
+        if ch.name not in groups:
+            order.append(ch.name)
+        groups.setdefault(ch.name, []).append(ch)
+    out = []
+    for name in order:
+        sibs = groups[name]
+        if len(sibs) == 1:
+            out.append(sibs[0])
+            continue
+        m = Tag(name, sibs[0].cond, sibs[0].where)
+        m.closed_seen = all(x.closed_seen for x in sibs)
+        for x in sibs:
+            for a, spec in x.attrs.items():
+                tgt = m.attrs.setdefault(a, {"cond": False, "values": set() if spec.get("values") is not None else None})
+                tgt["cond"] = tgt["cond"] or bool(spec.get("cond"))
+                if spec.get("values") is None:
+                    tgt["values"] = None if not tgt["values"] else tgt["values"]
+                elif tgt["values"] is not None:
+                    tgt["values"] |= set(spec["values"])
+            m.vals.extend(x.vals)
+            m.children.extend(x.children)
+        for a, tgt in m.attrs.items():
+            if any(a not in x.attrs for x in sibs):
+                tgt["cond"] = True
+        out.append(m)
+    return out
 
 
 class TagParser:
@@ -3762,7 +3832,7 @@ def rule_vocabulary(ck, W, facts, pcs):
                     ck.incomplete("E12.vocabulary", "<%s>@%s: the writer composes this attribute from several fields but no reader function that splits it was recognised" % (path, aname))
             kids = reader_children(W, pc_by_cls, pc.m["markup"])
             seen = set()
-            for ch in tag.children:
+            for ch in merged_children(tag):
                 if ch.name in seen:
                     continue
                 seen.add(ch.name)
